@@ -19,6 +19,9 @@ for d in sorted(glob.glob('/tmp/seed-C*/m*')):
             shutil.copy(os.path.join(d, f), out)
     am = json.load(open(os.path.join(d, 'meta.json')))
     key = f'{pid}-{m}'
+    dj = os.path.join(d, 'detect.json')
+    if os.path.exists(dj):
+        det[key] = json.load(open(dj))
     meta = {
         'property': pid,
         'origin': 'written by a fresh sub-agent that was given only the property text and its own scratch worktree (nothing from /verif)',
@@ -33,3 +36,4 @@ for d in sorted(glob.glob('/tmp/seed-C*/m*')):
     }
     json.dump(meta, open(os.path.join(out, 'meta.json'), 'w'), indent=1)
     print(pid, m, 'collected')
+json.dump(det, open('/verif/seeded/detection.json', 'w'), indent=1)
